@@ -27,6 +27,7 @@ Inductive libkind :=
   (* FlipJumpPreprocessorException *)
   | KLabelTwice | KPadEval | KPadNonPositive | KPadUnaligned | KPadTooHigh
   | KSegmentEval | KSegmentUnaligned | KReserveEval | KReserveUnaligned
+  | KReserveNegative          (* since commit 825c6f7 (fix of finding F18) *)
   (* FlipJumpExprException escaping from eval_new *)
   | KExprFold
   (* FlipJumpAssemblerException *)
@@ -139,9 +140,12 @@ Definition insert_label (st : pstate) (name : string) (addr : Z) : result pstate
   if dict_mem (p_labels st) name then LibError KLabelTwice
   else Ok (mkp (p_addr st) (dict_set (p_labels st) name addr) (addr :: p_used st) (p_ops st) (p_seg st)).
 
-Definition insert_segment (st : pstate) (start : Z) : pstate :=
-  mkp start (dict_set (p_labels st) (wflip_start_label (p_seg st)) (p_addr st)) (p_used st)
-      (LNewSeg start WFLIP_NOT_INSERTED_YET :: patch_wflip (p_ops st) (p_addr st)) (p_seg st + 1)%N.
+(* since commit 07c8d15 (fix of finding F17): `if wflip_area_label in self.labels: macro_resolve_error('label declared
+   twice ...')` before the assignment *)
+Definition insert_segment (st : pstate) (start : Z) : result pstate :=
+  if dict_mem (p_labels st) (wflip_start_label (p_seg st)) then LibError KLabelTwice
+  else Ok (mkp start (dict_set (p_labels st) (wflip_start_label (p_seg st)) (p_addr st)) (p_used st)
+               (LNewSeg start WFLIP_NOT_INSERTED_YET :: patch_wflip (p_ops st) (p_addr st)) (p_seg st + 1)%N).
 
 Definition insert_reserve (st : pstate) (size : Z) : pstate :=
   mkp (p_addr st + size) (p_labels st) (p_used st) (LReserve (p_addr st + size) :: p_ops st) (p_seg st).
@@ -183,7 +187,7 @@ Definition pre_step (st : pstate) (s : stmt) : result pstate :=
     | Some e' =>
       match exact_eval (p_labels st) e' with
       | None => LibError KSegmentEval
-      | Some a => if negb (a mod wd =? 0) then LibError KSegmentUnaligned else Ok (insert_segment st a)
+      | Some a => if negb (a mod wd =? 0) then LibError KSegmentUnaligned else insert_segment st a
       end
     end
   | SReserve e _ =>
@@ -192,7 +196,8 @@ Definition pre_step (st : pstate) (s : stmt) : result pstate :=
     | Some e' =>
       match exact_eval (p_labels st) e' with
       | None => LibError KReserveEval
-      | Some r => if negb (r mod wd =? 0) then LibError KReserveUnaligned else Ok (insert_reserve st r)
+      | Some r => if r <? 0 then LibError KReserveNegative      (* checked before the alignment *)
+                  else if negb (r mod wd =? 0) then LibError KReserveUnaligned else Ok (insert_reserve st r)
       end
     end
   | SMacroCall _ _ _ | SRepCall _ _ _ _ _ => LibError KNotPrimitive
@@ -522,7 +527,7 @@ Definition libkind_code (k : libkind) : N :=
   | KSegmentUnaligned => 6 | KReserveEval => 7 | KReserveUnaligned => 8 | KExprFold => 9 | KOpEval => 10
   | KWflipValue => 11 | KBoundsUnaligned => 12 | KNoSpace => 13 | KAddSegment => 14 | KNoFirstOp => 15
   | KFirstNotSegment => 16 | KNotPrimitive => 17 | KPadTooHigh => 18
-  | KWriterWordRange => 19
+  | KWriterWordRange => 19 | KReserveNegative => 20
   end%N.
 
 Fixpoint npairs_eqb (a b : list (N * N)) : bool :=
